@@ -28,6 +28,7 @@ type LoopSpec struct {
 	Invs      []*Clause
 	Decreases []Expr
 	DecText   string
+	DecWhen   Expr // optional guard (evaluated in the entry state): termination is claimed only under it
 }
 
 type FuncContract struct {
@@ -47,6 +48,7 @@ type FuncContract struct {
 	External  bool // contract lives in /verif/contracts/external
 	NoSafety  bool
 	Asserts   []*AssertSpec
+	Defines   []*Clause // definitional abstractions: assumed at call sites, not proved (listed as assumptions)
 	Decreases []Expr
 	File      string
 	Line      int
@@ -117,7 +119,7 @@ var stmtKeywords = map[string]bool{
 	"spec": true, "pred": true, "lemma": true, "axiom": true, "func": true, "interface": true, "functype": true,
 	"prop": true, "mode": true, "requires": true, "ensures": true, "panics": true, "modifies": true,
 	"decreases": true, "loop": true, "invariant": true, "closure": true, "trusted": true, "inline": true,
-	"assert": true, "using": true, "opt": true, "nosafety": true, "induction": true, "opaque_spec": true, "opaque_pred": true,
+	"assert": true, "defines": true, "lift": true, "using": true, "opt": true, "nosafety": true, "induction": true, "opaque_spec": true, "opaque_pred": true,
 }
 
 type stmt struct {
@@ -329,6 +331,21 @@ func (cs *Contracts) loadContractFile(path, importPath string, external bool) er
 			} else if curLemma != nil {
 				curLemma.Using = append(curLemma.Using, us...)
 			}
+		case "lift":
+			if curF == nil {
+				return fmt.Errorf("%s:%d: lift outside func", path, s.line)
+			}
+			curF.Opts["lift"] = strings.TrimSpace(s.rest)
+		case "defines":
+			c, err := mkClause(s.kw, s)
+			if err != nil {
+				return err
+			}
+			if curF == nil {
+				return fmt.Errorf("%s:%d: defines outside func", path, s.line)
+			}
+			curF.Defines = append(curF.Defines, c)
+			lastClause = c
 		case "requires", "ensures", "panics":
 			c, err := mkClause(s.kw, s)
 			if err != nil {
@@ -431,6 +448,15 @@ func (cs *Contracts) loadContractFile(path, importPath string, external bool) er
 			curLoop.Invs = append(curLoop.Invs, c)
 		case "decreases":
 			var es []Expr
+			var when Expr
+			if k := strings.Index(s.rest, " when "); k >= 0 {
+				w, err := parseExpr(strings.TrimSpace(s.rest[k+6:]))
+				if err != nil {
+					return fmt.Errorf("%s:%d: %v", path, s.line, err)
+				}
+				when = w
+				s.rest = s.rest[:k]
+			}
 			for _, part := range splitTop(s.rest) {
 				e, err := parseExpr(part)
 				if err != nil {
@@ -440,6 +466,7 @@ func (cs *Contracts) loadContractFile(path, importPath string, external bool) er
 			}
 			if curLoop != nil {
 				curLoop.Decreases = es
+				curLoop.DecWhen = when
 				curLoop.DecText = s.rest
 			} else if curF != nil {
 				curF.Decreases = es
